@@ -14,15 +14,20 @@ structure AInv (cfg : Cfg) (a : St) (h : List GEv) : Prop where
 structure GInv (cfg : Cfg) (g : GSt) (h : List GEv) : Prop where
   acc : AInv cfg g.acc h
   retry : g.retry = gRetry cfg.d0 h
-  loaded : g.loaded = gCur cfg.d0 h
+  pend : ∀ id ∈ g.pending, ∃ k, gPinned cfg.d0 h id = some k
 
 theorem ginv_init (cfg : Cfg) (t0 : Nat) : GInv cfg (ginit cfg t0) [] := by
-  refine ⟨⟨?_, ?_, ?_, ?_⟩, rfl, rfl⟩ <;> simp [ginit, init, mfind, gCur, gPinned]
+  refine ⟨⟨?_, ?_, ?_, ?_⟩, rfl, ?_⟩ <;> simp [ginit, init, mfind, gCur, gPinned]
 
 theorem gPinned_cons (d0 : Nat) (e : GEv) (h : List GEv) (id : Nat) :
     gPinned d0 (e :: h) id = match gPinned d0 h id with
       | some k => some k
       | none => if mentions id e then some (gCur d0 h) else none := rfl
+
+theorem gPinned_self (d0 : Nat) (e : GEv) (h : List GEv) (id : Nat) (hm : mentions id e = true) :
+    gPinned d0 (e :: h) id = some (gLabel d0 h id) := by
+  rw [gPinned_cons, gLabel]
+  cases gPinned d0 h id <;> simp [hm]
 
 /-- `GetTxnPoliciesData(id)` answers with the policies in force when `id` was first seen, and
     afterwards `id` is pinned to them. -/
@@ -122,49 +127,136 @@ theorem update_ainv (cfg : Cfg) (a : St) (h h' : List GEv) (hA : AInv cfg a h) (
   · intro id v hp
     rw [hpin]; exact h4 id v hp
 
-theorem gstep_inv (cfg : Cfg) (g : GSt) (h : List GEv) (hinv : GInv cfg g h) (o : GOp) :
-    match (gstep cfg g o).2 with
-    | some e => GInv cfg (gstep cfg g o).1 (e :: h) ∧ gEventOk cfg.d0 e h = true
-    | none => GInv cfg (gstep cfg g o).1 h := by
-  obtain ⟨hA, hR, hL⟩ := hinv
+theorem gPinned_cons_some (d0 : Nat) (e : GEv) (h : List GEv) (id k : Nat)
+    (hk : gPinned d0 h id = some k) : gPinned d0 (e :: h) id = some k := by
+  rw [gPinned_cons, hk]
+
+/-- A transaction that has been seen is pinned: looking it up again changes nothing and yields the
+    policies it first saw. -/
+theorem lookup_pinned_noop (cfg : Cfg) (a : St) (h : List GEv) (hA : AInv cfg a h) (id k : Nat)
+    (hk : gPinned cfg.d0 h id = some k) : lookupLabel cfg a id = (a, some k) := by
+  obtain ⟨v, hv, hd⟩ := hA.pinned id k hk
+  simp only [lookupLabel, step_lookup_found cfg a id v hv, getData, hd]
+
+/-- The diagnosis worker works off its queue: the accessor state is untouched and every exported
+    record satisfies the Spec. -/
+theorem drain_inv (cfg : Cfg) (seen : List Nat) (a : St) (ps : List Nat) (h : List GEv)
+    (hA : AInv cfg a h) (hp : ∀ id ∈ ps, ∃ k, gPinned cfg.d0 h id = some k)
+    (hh : gHoldsRev cfg.d0 h = true) :
+    (drain cfg seen a ps).1 = a ∧
+    AInv cfg a ((drain cfg seen a ps).2.reverse ++ h) ∧
+    gHoldsRev cfg.d0 ((drain cfg seen a ps).2.reverse ++ h) = true ∧
+    gCur cfg.d0 ((drain cfg seen a ps).2.reverse ++ h) = gCur cfg.d0 h ∧
+    gRetry cfg.d0 ((drain cfg seen a ps).2.reverse ++ h) = gRetry cfg.d0 h ∧
+    (∀ id k, gPinned cfg.d0 h id = some k →
+      gPinned cfg.d0 ((drain cfg seen a ps).2.reverse ++ h) id = some k) := by
+  induction ps generalizing h with
+  | nil => simp [drain, hA, hh]
+  | cons id rest ih =>
+    obtain ⟨k, hk⟩ := hp id List.mem_cons_self
+    have hnoop := lookup_pinned_noop cfg a h hA id k hk
+    by_cases hs : (seen.contains id && labelHasDiag (some k)) = true
+    · -- a record is exported
+      let e : GEv := .diag id (some (diagLens k))
+      have hl := lookup_ainv cfg a h hA id e (by intro id'; simp [e, mentions]) rfl
+      rw [hnoop] at hl
+      have hA' : AInv cfg a (e :: h) := hl.2
+      have hok : gEventOk cfg.d0 e h = true := by
+        simp [e, gEventOk, gLabel, hk]
+      have hh' : gHoldsRev cfg.d0 (e :: h) = true := by simp [gHoldsRev, hok, hh]
+      have hp' : ∀ id' ∈ rest, ∃ k', gPinned cfg.d0 (e :: h) id' = some k' := by
+        intro id' hm
+        obtain ⟨k', hk'⟩ := hp id' (List.mem_cons_of_mem _ hm)
+        exact ⟨k', gPinned_cons_some _ _ _ _ _ hk'⟩
+      obtain ⟨i1, i2, i3, i4, i5, i6⟩ := ih (e :: h) hA' hp' hh'
+      have hd : drain cfg seen a (id :: rest) =
+          ((drain cfg seen a rest).1, e :: (drain cfg seen a rest).2) := by
+        simp only [drain, hnoop, hs, if_true, Option.map, e]
+      rw [hd]
+      simp only [List.reverse_cons, List.append_assoc, List.singleton_append]
+      refine ⟨i1, i2, i3, ?_, ?_, ?_⟩
+      · rw [i4]; rfl
+      · rw [i5]; rfl
+      · intro id' k' hk'
+        exact i6 id' k' (gPinned_cons_some _ _ _ _ _ hk')
+    · -- the request is not in the worker's cache, or its policies have no diagnosis: nothing is exported
+      have hp' : ∀ id' ∈ rest, ∃ k', gPinned cfg.d0 h id' = some k' :=
+        fun id' hm => hp id' (List.mem_cons_of_mem _ hm)
+      have hd : drain cfg seen a (id :: rest) = drain cfg seen a rest := by
+        simp only [drain, hnoop, hs]
+        rfl
+      rw [hd]
+      exact ih h hA hp' hh
+
+theorem gstep_inv (cfg : Cfg) (g : GSt) (h : List GEv) (hinv : GInv cfg g h)
+    (hh : gHoldsRev cfg.d0 h = true) (o : GOp) :
+    GInv cfg (gstep cfg g o).1 ((gstep cfg g o).2.reverse ++ h) ∧
+      gHoldsRev cfg.d0 ((gstep cfg g o).2.reverse ++ h) = true := by
+  obtain ⟨hA, hR, hP⟩ := hinv
+  have hupd : ∀ k l, GInv cfg { g with acc := (step cfg g.acc (.update k true)).1, loaded := l }
+        (GEv.reload k :: h) ∧
+      gHoldsRev cfg.d0 (GEv.reload k :: h) = true := by
+    intro k l
+    have hpin : ∀ id, gPinned cfg.d0 (GEv.reload k :: h) id = gPinned cfg.d0 h id := by
+      intro id
+      rw [gPinned_cons]
+      cases gPinned cfg.d0 h id <;> simp [mentions]
+    refine ⟨⟨update_ainv cfg g.acc h _ hA k rfl hpin, hR, ?_⟩, ?_⟩
+    · intro id' hm
+      rw [hpin]; exact hP id' hm
+    · simp [gHoldsRev, gEventOk, hh]
   cases o with
   | req id seq =>
-    have hl := lookup_ainv cfg g.acc h hA id (.req id seq (lookupLabel cfg g.acc id).2)
+    have hl := lookup_ainv cfg g.acc h hA id (.req id seq ((lookupLabel cfg g.acc id).2.map stampLens))
       (by intro id'; simp [mentions]) rfl
-    simp only [gstep]
-    refine ⟨⟨hl.2, ?_, ?_⟩, ?_⟩
-    · exact hR
-    · exact hL
-    · simp [gEventOk, hl.1]
+    simp only [gstep, List.reverse_cons, List.reverse_nil, List.nil_append, List.singleton_append]
+    refine ⟨⟨hl.2, hR, ?_⟩, ?_⟩
+    · intro id' hm
+      obtain ⟨k', hk'⟩ := hP id' hm
+      exact ⟨k', gPinned_cons_some _ _ _ _ _ hk'⟩
+    · simp [gHoldsRev, gEventOk, hl.1, hh]
   | resp id seq status =>
     have hl := fun out => lookup_ainv cfg g.acc h hA id (.resp id seq status out)
       (by intro id'; simp [mentions]) rfl
     simp only [gstep]
     rw [(hl none).1]
-    simp only
+    simp only [List.reverse_cons, List.reverse_nil, List.nil_append, List.singleton_append]
     refine ⟨⟨(hl _).2, ?_, ?_⟩, ?_⟩
     · show (retryLens g.retry (gLabel cfg.d0 h id) id seq status).1 = _
       rw [hR]; rfl
-    · exact hL
-    · simp [gEventOk, hR]
+    · intro id' hm
+      have hm' : id' ∈ g.pending ∨ id' = id := by
+        have hm2 : id' ∈ (if hasDiag (gLabel cfg.d0 h id) then g.pending ++ [id] else g.pending) := hm
+        split at hm2
+        · rcases List.mem_append.mp hm2 with a | b
+          · exact Or.inl a
+          · exact Or.inr (List.mem_singleton.mp b)
+        · exact Or.inl hm2
+      rcases hm' with hm' | hm'
+      · obtain ⟨k', hk'⟩ := hP id' hm'
+        exact ⟨k', gPinned_cons_some _ _ _ _ _ hk'⟩
+      · subst hm'
+        exact ⟨_, gPinned_self _ _ _ _ (by simp [mentions])⟩
+    · simp [gHoldsRev, gEventOk, hR, hh]
   | reload k ok =>
     cases ok with
-    | false => exact ⟨hA, hR, hL⟩
+    | false => exact ⟨⟨hA, hR, hP⟩, by simpa [gstep] using hh⟩
     | true =>
-      simp only [gstep]
-      refine ⟨⟨update_ainv cfg g.acc h _ hA k rfl ?_, hR, rfl⟩, rfl⟩
-      intro id
-      rw [gPinned_cons]
-      cases gPinned cfg.d0 h id <;> simp [mentions]
-  | revert =>
+      simp only [gstep, List.reverse_cons, List.reverse_nil, List.nil_append, List.singleton_append]
+      exact hupd k k
+  | revert free =>
+    simp only [gstep, List.reverse_cons, List.reverse_nil, List.nil_append, List.singleton_append]
+    exact hupd _ g.loaded
+  | diag =>
+    obtain ⟨d1, d2, d3, _, d5, _⟩ := drain_inv cfg g.seen g.acc g.pending h hA hP hh
     simp only [gstep]
-    exact ⟨update_ainv cfg g.acc h h hA g.loaded hL.symm (fun _ => rfl), hR, hL⟩
-
-theorem grun_cons (cfg : Cfg) (g : GSt) (o : GOp) (os : List GOp) :
-    grun cfg g (o :: os) =
-      (match (gstep cfg g o).2 with | some e => [e] | none => []) ++ grun cfg (gstep cfg g o).1 os := by
-  simp only [grun]
-  cases (gstep cfg g o).2 <;> rfl
+    refine ⟨⟨?_, ?_, ?_⟩, d3⟩
+    · show AInv cfg (drain cfg g.seen g.acc g.pending).1 _
+      rw [d1]; exact d2
+    · show g.retry = _
+      rw [d5]; exact hR
+    · intro id' hm
+      exact absurd hm (List.not_mem_nil)
 
 theorem grun_holds (cfg : Cfg) (os : List GOp) (g : GSt) (h : List GEv)
     (hinv : GInv cfg g h) (hh : gHoldsRev cfg.d0 h = true) :
@@ -172,16 +264,9 @@ theorem grun_holds (cfg : Cfg) (os : List GOp) (g : GSt) (h : List GEv)
   induction os generalizing g h with
   | nil => simpa [grun] using hh
   | cons o os ih =>
-    have hs := gstep_inv cfg g h hinv o
-    rw [grun_cons]
-    cases he : (gstep cfg g o).2 with
-    | none =>
-      rw [he] at hs
-      simpa using ih (gstep cfg g o).1 h hs hh
-    | some e =>
-      rw [he] at hs
-      have := ih (gstep cfg g o).1 (e :: h) hs.1 (by simp [gHoldsRev, hs.2, hh])
-      simpa using this
+    have hs := gstep_inv cfg g h hinv hh o
+    have := ih (gstep cfg g o).1 _ hs.1 hs.2
+    simpa [grun, List.reverse_append, List.append_assoc] using this
 
 theorem gHoldsRev_append_right (d0 : Nat) (a b : List GEv) (h : gHoldsRev d0 (a ++ b) = true) :
     gHoldsRev d0 b = true := by
@@ -202,9 +287,14 @@ theorem gPinned_append_some (d0 : Nat) (a b : List GEv) (id k : Nat) (hb : gPinn
   | nil => exact hb
   | cons e a ih => rw [List.cons_append, gPinned_cons, ih]
 
-theorem gPinned_self (d0 : Nat) (e : GEv) (h : List GEv) (id : Nat) (hm : mentions id e = true) :
-    gPinned d0 (e :: h) id = some (gLabel d0 h id) := by
-  rw [gPinned_cons, gLabel]
-  cases gPinned d0 h id <;> simp [hm]
+/-- The lenses on the response path and the diagnosis path do not depend on the diagnosis-free variant. -/
+theorem retryLens_stamp (r : List (Nat × (Nat × Nat))) (k id seq status : Nat) :
+    retryLens r (stampLens k) id seq status = retryLens r k id seq status := by
+  have h1 : lensStatus (stampLens k) = lensStatus k := by simp only [lensStatus, stampLens]; omega
+  have h2 : lensCooldown (stampLens k) = lensCooldown k := by simp only [lensCooldown, stampLens]; omega
+  simp only [retryLens, h1, h2]
+
+theorem diagLens_stamp (k : Nat) : diagLens (stampLens k) = diagLens k := by
+  simp only [diagLens, stampLens]; omega
 
 end LunarVerif.C11
